@@ -22,13 +22,15 @@ SReset(E) ==
   /\ E.e = "reset"
   /\ truth' = <<>> /\ cores' = <<>> /\ pend' = NoPend
 
-\* the shared core before the tasks start: a writer holding E.pre, or an empty replica of it
+\* the shared core before the tasks start: a writer holding E.pre, or a replica of that log
 SStart(E) ==
   /\ E.e = "start"
   /\ LET log == RExtend(<<>>, E.pre) n == RLen(log) IN
      /\ truth' = ("k1" :> log)
-     /\ cores' = (E.c :> [key |-> "k1", len |-> IF E.writer THEN n ELSE 0,
-                          held |-> IF E.writer /\ n > 0 THEN <<<<0, n>>>> ELSE <<>>,
+     \* a writer holds everything; a replica starts from what it had synced before it was
+     \* shared (taken from the logged projection, which ViewOK then checks against the log)
+     /\ cores' = (E.c :> [key |-> "k1", len |-> IF E.writer THEN n ELSE E.view.len,
+                          held |-> IF E.writer THEN (IF n > 0 THEN <<<<0, n>>>> ELSE <<>>) ELSE E.view.held,
                           writable |-> E.writer, subs |-> 0, sealed |-> ~E.writer])
   /\ ViewOK(E.c, E.view)'
   /\ pend' = NoPend
